@@ -59,7 +59,7 @@ def main():
         sh("git -C %s worktree remove --force %s" % (REPO, wt))
         sh("git -C %s checkout -- evidence" % VERIF)
         sh("git -C %s checkout -- replays; git -C %s clean -fdq replays" % (VERIF, VERIF))
-        sh("git -C %s checkout -- lean/Pulsar/Extracted.lean lean/Pulsar/ExtractedCode.lean" % VERIF)
+        sh("git -C %s checkout -- lean/Pulsar/Extracted.lean lean/Pulsar/ExtractedCode.lean lean/Pulsar/ExtractedFns.lean" % VERIF)
     print(json.dumps({k: len(v) for k, v in fired.items()}))
     sys.exit(0 if any(fired.values()) else 1)
 
